@@ -66,8 +66,8 @@ ASSUMPTIONS = [
     "hcount and aromaticity are not carried by GML (stated in C10_gml_roundtrip: gml_node); stereo and isotope labels are not carried by the graph layer",
     "h_to_explicit(its=True) (C10_h_*_any_mode): the typesGH halves stay lowered after implicit-again and bond dictionaries are "
     "normalised ((o, o) pairs, standard_order 0) — stated in the theorems (h_restore_gen, fin_edge), not a loss of the molecule",
-    "explicit_hydrogen=True exports: theorem for graphs without implicit hydrogens (hc_free: every core export); with implicit "
-    "hydrogens the export adds hydrogen atoms on purpose: correspondence and oracle only",
+    "explicit_hydrogen=True exports: with implicit hydrogens the export adds hydrogen atoms on purpose; the theorem "
+    "(C10_gml_roundtrip_explicit_h_full) says the rule reads back as the ITS with its hydrogens explicit (reindex=False)",
 ]
 TESTED_NOT_PROVED = [
     "SMILES -> graph -> SMILES equals RDKit's canonical SMILES up to stereo: the RDKit half (parse, sanitise, aromaticity perception, write) "
@@ -76,12 +76,12 @@ TESTED_NOT_PROVED = [
     "(graph-level statements are proved: C10_h_total_*, C10_h_explicit_skeleton, C10_h_implicit_skeleton, C10_h_roundtrip)",
     "GML text rendering and the line tokenisation of GMLToNX.transform (glue): correspondence only, through an independent tokenizer",
     "smart_to_gml's RDKit half (rsmi_to_graph): the adapter feeds its output to the model",
-    "explicit_hydrogen=True exports of graphs with implicit hydrogens; core=False (full) exports on ITS graphs outside its_ok: "
-    "correspondence + oracle only",
+    "core=False (full) exports on ITS graphs outside its_ok; explicit_hydrogen=True together with reindex=True on graphs with "
+    "implicit hydrogens: correspondence + oracle only",
     "graph_to_rsmi / its_to_rsmi / gml_to_smart: modelled up to the two RWMol handed to RDKit (observed on the real call by a spy on "
     "graph_to_smi / GraphToMol.graph_to_mol); what RDKit writes from them is not modelled",
 ]
-LEVEL_TEXT = ("Machine-checked proof (Coq, 38 theorems, closed under the global context) over an executable model of the GML writer/reader at "
+LEVEL_TEXT = ("Machine-checked proof (Coq, 40 theorems, closed under the global context) over an executable model of the GML writer/reader at "
               "record level, of its_to_gml / gml_to_its / smart_to_gml / get_rc / its_decompose / ITSGraph at graph level, of h_to_explicit / "
               "h_to_implicit, and of the attribute copying of MolToGraph / GraphToMol: label round trip for every element symbol and every "
               "charge; ITS -> GML -> ITS restores atoms, both-side charges and (before, after) orders for every reaction-centre-shaped ITS, "
@@ -1465,6 +1465,32 @@ def _oracle_its_graph(I, cfgs, tag):
             if not ok:
                 fails.append(_fail("gml-roundtrip", "%s: gml_to_its(its_to_gml(I, core=%s, reindex=%s, eh=%s)) differs from %s on atoms/charges/orders"
                                    % (tag, core, reindex, eh, "the centre" if core else "I")))
+        if eh and not core and not reindex and all((d.get("hcount", 0) or 0) >= 0 for _, d in I.nodes(data=True)):
+            # explicit_hydrogen on a full ITS: the atoms and bonds of I survive, and every implicit hydrogen of the context
+            # (node attribute hcount) comes back as one hydrogen atom bonded (1, 1) to its atom and to nothing else
+            back = gml_to_its(text)
+            sw, sb = _its_struct(I), _its_struct(back)
+            old = set(I.nodes)
+            if {n: a for n, a in sb[0].items() if n in old} != sw[0] or {k: v for k, v in sb[1].items() if k <= old} != sw[1]:
+                fails.append(_fail("gml-roundtrip", "%s: gml_to_its(its_to_gml(I, core=False, explicit_hydrogen=True)) changes atoms / bonds of I" % tag))
+            else:
+                hs = {n: 0 for n in old}
+                bad = None
+                for n in set(back.nodes) - old:
+                    nb = list(back.neighbors(n))
+                    t = back.nodes[n]["typesGH"]
+                    if len(nb) != 1 or nb[0] not in old or t[0][0] != "H" or t[1][0] != "H" or t[0][3] != 0 or t[1][3] != 0 or \
+                            tuple(float(x) for x in back[n][nb[0]]["order"]) != (1.0, 1.0):
+                        bad = "new atom %r is not a hydrogen single-bonded (1, 1) to one atom of I" % (n,)
+                        break
+                    hs[nb[0]] += 1
+                if bad is None:
+                    for n in old:
+                        if hs[n] != (I.nodes[n].get("hcount", 0) or 0):
+                            bad = "atom %r has %d implicit hydrogens, the rule read back gives it %d hydrogen atoms" % (n, I.nodes[n].get("hcount", 0) or 0, hs[n])
+                            break
+                if bad:
+                    fails.append(_fail("gml-roundtrip-explicit-h", "%s: %s" % (tag, bad)))
         if core and not is_centre:
             text2 = its_to_gml(rc.copy(), core=True, reindex=reindex, explicit_hydrogen=eh)
             rec2 = text_to_rec(text2)
@@ -2115,7 +2141,8 @@ def gen_cases(tier, rng):
             rc = from_nx(get_rc(its))
         except Exception:
             continue
-        cases.append(dict(kind="its", its=full, cfgs=[[True, True, False], [True, False, False], [False, rng.random() < 0.5, False]],
+        cases.append(dict(kind="its", its=full, cfgs=[[True, True, False], [True, False, False], [False, rng.random() < 0.5, False]]
+                          + ([[False, False, True]] if i % 3 == 0 or not quick else []),
                           name="its-full/%s/%d" % (src, j)))
         cases.append(dict(kind="its", its=rc, cfgs=[[True, True, False], [True, False, False]], name="its-centre/%s/%d" % (src, j)))
     return cases
